@@ -293,7 +293,7 @@ func vsFlushExec(sc vsFlScn, ch vsChooser) (string, *vsSched) {
 		})
 		a.atomicMode = true
 	}
-	guardW := func() bool { return e.fp.registered && e.fp.interestW && !e.fp.deleted }
+	guardW := func() bool { return e.fp.registered && e.fp.interestW && !e.fp.deleted && e.fp.frees == 0 }
 	s.spawn("wpoller", "wpoller", true, guardW, func() {
 		for i := 0; i < 16; i++ {
 			// the event was fetched while the descriptor had EPOLLOUT interest (the guard held when this step was chosen)
@@ -304,7 +304,7 @@ func vsFlushExec(sc vsFlScn, ch vsChooser) (string, *vsSched) {
 			}
 			if r.skipped {
 				op := e.fp.op
-				s.guardPoint("poller.wrefetch", func() bool { return atomic.LoadInt32(&op.state) != 2 })
+				s.guardPoint("poller.wrefetch", func() bool { return atomic.LoadInt32(&op.state) != 2 || e.fp.frees > 0 })
 			}
 			s.guardPoint("poller.wfetch", guardW)
 		}
